@@ -149,6 +149,37 @@ def make_files(rng, ctx):
         files.append(f)
         if area % 4096:
             raise core.Inconclusive(f'alignment rung: record area at {area}')
+    # source-code-like texts in names: the coloured listing runs every line through a C lexer, whose rules look AHEAD for
+    # braces, semicolons, comment and string ends - a line is coloured on its own, never together with the lines that happen
+    # to follow it (cuts on every record boundary of such a dump, coloured and plain trace lines)
+    syntax = (b'sh; int job(1)', b'{pool}', b'int main(void)', b'/* worker', b'*/ done', b'"quoted', b'x = y;', b'if (a) {',
+              b'}', b'#define A(', b'struct s', b'// note', b"'c", b'@interface Foo', b'void f()')
+    seq, k = [], 0
+    for rep in range(2):
+        names = list(syntax)
+        rng.shuffle(names)
+        for text in names:
+            k += 1
+            seq += H.on_thread(11, H.exec_pair(100, text[:32], rng.choice((H.NONE, H.ALL))) if k % 3 == 0 else
+                               H.thread_name(text) if k % 3 == 1 else H.global_string(0x900 + k, text))
+            if k % 4 == 0:
+                seq += H.on_thread(11, H.syscall('BSC_getpid', (0, 0, 0, 0), (0, 100, 0, 0)))
+    # (the pair that needs no luck: a name that ends a statement and then looks like the head of a function definition -
+    # "sh; int job(1)" - and, a few lines further down with no semicolon in between, a name holding an opening brace)
+    for head in (b'sh; int job(1)', b'}; char *p(void)'):
+        for brace in (b'{pool}', b'if (a) {'):
+            for gap in (0, 2, 13):
+                seq += H.on_thread(11, H.exec_pair(100, head, H.NONE))
+                for _ in range(gap):
+                    seq += H.on_thread(11, H.syscall('BSC_getpid', (0, 0, 0, 0), (0, 100, 0, 0)))
+                seq += H.on_thread(11, H.thread_name(brace) + H.global_string(0x990, b'plain; text'))
+    sx = gen.events_to_records(H.materialize(seq, t0=1000))
+    data = wire.v2_file([(11, 100, b'proc0', b'')], 8, sx)
+    area = len(data) - 64 * len(sx)
+    files.append({'kind': 'v2', 'entries': [(11, 100, b'proc0', b'')], 'pad': 8, 'records': sx, 'data': data,
+                  'label': f'v2 dump of {len(sx)} records whose names look like source code',
+                  'offsets': sorted({area + 64 * j for j in range(len(sx) + 1)} | {area + 64 * j + 31 for j in range(0, len(sx), 5)}),
+                  'pipelines': ('formatted_traces', 'formatted_traces_color')})
     # record-count rung: a reader that takes the records of a version-2 dump B at a time (into a buffer it re-uses) meets a
     # cut inside a record of its SECOND, third ... block - beyond the first 256 / 1024 / 4096 / 16384 (/ 65536) records; the
     # records are all different, so bytes left over from an earlier block cannot pass for the missing ones
@@ -311,7 +342,7 @@ def run(ctx):
                 res.count('large_dump_cuts', len(offsets))
             for k in offsets:
                 for name, (make, key) in pl.items():
-                    if name == 'formatted_traces_color' and k % 5:
+                    if name == 'formatted_traces_color' and k % 5 and 'pipelines' not in f:
                         continue
                     if 'pipelines' in f and name not in f['pipelines']:
                         continue
